@@ -49,6 +49,9 @@ func (w *World) runPair(n int, c Cookie, r *rand.Rand) []Line {
 	var wg sync.WaitGroup
 	order := r.Intn(2)
 	stagger := time.Duration(r.Intn(3000)) * time.Microsecond
+	// every third pair is not concurrent but back to back: whatever the first check left behind (a remembered
+	// verdict, a cached answer) must not answer for the second
+	seq := r.Intn(3) == 0
 	for k := 0; k < 2; k++ {
 		i := (k + order) % 2
 		s := Session(c, hosts[i], now, r)
@@ -63,7 +66,11 @@ func (w *World) runPair(n int, c Cookie, r *rand.Rand) []Line {
 			out[i].resp = world.Do(w.P.Handler, req)
 		}(i, val)
 		if k == 0 {
-			time.Sleep(stagger)
+			if seq {
+				wg.Wait()
+			} else {
+				time.Sleep(stagger)
+			}
 		}
 	}
 	wg.Wait()
@@ -165,6 +172,10 @@ func (w *World) runTwinPair(n int, c Cookie, r *rand.Rand, copied bool) []Line {
 	var wg sync.WaitGroup
 	order := r.Intn(2)
 	stagger := time.Duration(r.Intn(3000)) * time.Microsecond
+	seq := r.Intn(3) == 0 // back to back instead of at once
+	if seq {
+		note += " (back to back)"
+	}
 	for k := 0; k < 2; k++ {
 		i := (k + order) % 2
 		wg.Add(1)
@@ -174,7 +185,11 @@ func (w *World) runTwinPair(n int, c Cookie, r *rand.Rand, copied bool) []Line {
 			resps[i] = world.Do(w.P.Handler, req)
 		}(i)
 		if k == 0 {
-			time.Sleep(stagger)
+			if seq {
+				wg.Wait()
+			} else {
+				time.Sleep(stagger)
+			}
 		}
 	}
 	wg.Wait()
